@@ -604,3 +604,11 @@ Proof.
 Qed.
 
 End Ext.
+
+(* without guards *)
+Lemma control_guard_true p : control_guard (fun _ _ => true) p = true.
+Proof. unfold control_guard. destruct (get p k_Package); [apply ext_guard_true|]. destruct (get p k_Source); [apply ext_guard_true|reflexivity]. Qed.
+Lemma copyright_guard_true p : copyright_guard (fun _ _ => true) p = true.
+Proof. unfold copyright_guard. destruct (get p k_Files); [apply ext_guard_true|]. destruct (get p k_License); [apply ext_guard_true|reflexivity]. Qed.
+Lemma forallb_all {A} (f : A -> bool) l : (forall x, f x = true) -> forallb f l = true.
+Proof. intros H. apply forallb_forall. intros x _. apply H. Qed.
